@@ -107,6 +107,32 @@ def enum_single(maxw):
                 yield [(iw, False), a, b], ["array", elems + [["const", -3]], A]
 
 
+def enum_reflected(maxw):
+    """Operands that reach the operators through other entry points: a bare Python integer on either
+    side (reflected methods __radd__, __rmod__, ...) and an array proxy used directly (value-castable
+    right/left operand, reflected comparison dispatch)."""
+    S = shapes_upto(maxw)
+    A, B, C, I = ["sig", 0], ["sig", 1], ["sig", 2], ["sig", 3]
+    ints = [0, 1, 2, 3, 5, 13, -1, -3]
+    for a in S:
+        for op in X.BINARY:
+            for k in ints:
+                yield [a], [op, ["pyint", k], A]
+                yield [a], [op, A, ["pyint", k]]
+            yield [a], ["mux", A, ["pyint", 3], A]
+    Ssmall = [s for s in S if s[0] <= 2]
+    for a in Ssmall:
+        for b in Ssmall:
+            for c in Ssmall[::2]:
+                env = [a, b, c, (1, False)]
+                proxy = ["array_raw", [B, C], I]
+                for op in X.BINARY:
+                    if op in ("shl", "shr"):
+                        continue
+                    yield env, [op, A, proxy]
+                    yield env, [op, proxy, A]
+
+
 def enum_depth2(maxw, stride, offset):
     """op2(op1(a[,b]), c) for widths <= maxw; every `stride`-th case starting at `offset`."""
     S = shapes_upto(maxw)
@@ -170,6 +196,8 @@ def shards(tier, seed):
     maxw = 3 if tier == "quick" else 4
     for i in range(NSHARDS):
         specs.append({"kind": "enum_single", "maxw": maxw, "part": i, "parts": NSHARDS})
+    for i in range(NSHARDS):
+        specs.append({"kind": "enum_reflected", "maxw": 2 if tier == "quick" else 3, "part": i, "parts": NSHARDS})
     d2_stride = 40 if tier == "quick" else 4
     for i in range(NSHARDS):
         specs.append({"kind": "enum_depth2", "maxw": 2, "stride": d2_stride * NSHARDS,
@@ -206,8 +234,19 @@ def run_shard(spec, want_read=True, prefixes=VERDICT_PREFIXES):
     out = {"evaluations": 0, "fps": set(), "hist": {}, "violations": [], "samples": [],
            "exhaustive": [], "extra": {"expressions": 0}}
     kind = spec["kind"]
-    if kind in ("enum_single", "enum_depth2"):
-        if kind == "enum_single":
+    if kind in ("enum_single", "enum_depth2", "enum_reflected"):
+        if kind == "enum_reflected":
+            pairs = []
+            for env, e in enum_reflected(spec["maxw"]):
+                try:
+                    X.ref_shape(e, [tuple(x) for x in env])
+                except X.IllFormed:
+                    continue
+                pairs.append((env, e))
+            groups = list(group_by_env(pairs, 48))
+            groups = groups[spec["part"]::spec["parts"]]
+            out["exhaustive"].append(f"binary operators with a bare Python integer / a direct array proxy on either side x shapes(width<={spec['maxw']}) x all values")
+        elif kind == "enum_single":
             pairs = list(enum_single(spec["maxw"]))
             groups = list(group_by_env(pairs, 48))
             groups = groups[spec["part"]::spec["parts"]]
